@@ -57,6 +57,13 @@ class SymChars:
     def is_empty_model(self, ctx):
         return len(self.chars) == 0
 
+    def bytes_model(self, ctx):
+        # the FEN alphabet is ASCII (assumed by the harness preconditions): one byte per character
+        return IterV(tuple((True, c.v & 0xff if False else (CI(c.v, 8) if isinstance(c, CI) else z3.Extract(7, 0, bv(c)))) for c in self.chars))
+
+    def as_bytes_model(self, ctx):
+        return ctx.ex.alloc(ctx.st, Seq.of([CI(c.v, 8) if isinstance(c, CI) else z3.Extract(7, 0, bv(c)) for c in self.chars]))
+
     def parse_model(self, ctx, t):
         if len(self.chars) != 1:
             raise Unsupported('parse of a multi-character symbolic string')
@@ -240,6 +247,12 @@ def report(run, name, what, fens, info=None):
             return True
     run.inconclusive.append('%s: %s (solver counterexample), but not reproduced by the real reader on %d crafted FENs' % (name, what, len(fens)))
     return False
+
+
+def ep_fen(f):
+    """white to move, black pawn just double-pushed on file f"""
+    row = (str(f) if f else '') + 'p' + (str(7 - f) if f < 7 else '')
+    return '4k3/8/8/%s/8/8/8/4K3 w - %s6 0 1' % (row, 'abcdefgh'[f])
 
 
 def step_fen(ch, r, f):
@@ -483,7 +496,7 @@ def ep_case(run):
             return
         q = run.decide('%s/%s' % (name, variant), ex.pre + [zb(st2.guard), z3.Or(*bad)], kind='smt', note="'-' -> no en-passant file; 'a'..'h' + rank -> that file")
         if q.verdict == 'sat':
-            report(run, name, 'en-passant field is not read as written', BATTERY + ['4k3/8/8/%sP7/8/8/8/4K3 w - %s6 0 1' % (ch_, ch_) for ch_ in 'abcdefgh'])
+            report(run, name, 'en-passant field is not read as written', BATTERY + [ep_fen(f_) for f_ in range(8)])
         for ob, qq in run.check_obligations(ex, '%s/%s' % (name, variant)):
             report(run, name, 'panic on a valid field: %s' % (ob,), BATTERY)
 
